@@ -32,11 +32,11 @@ import (
 // ---------------------------------------------------------------------------
 
 type c05Row struct {
-	key   []byte
-	body  []byte
-	isNil bool // SQL NULL
-	etag  int
-	stale []byte // previous value (visible to inconsistent reads)
+	key      []byte
+	body     []byte
+	isNil    bool // SQL NULL
+	etag     int
+	stale    []byte // previous value (visible to inconsistent reads)
 	hadStale bool
 }
 
@@ -149,15 +149,27 @@ func verifStubDDBPutItem(c *dynamodb.Client, ctx context.Context, in *dynamodb.P
 	if in.ConditionExpression != nil {
 		cond = *in.ConditionExpression
 	}
-	ok := false
-	switch cond {
-	case "checkpoint = :old":
-		old := in.ExpressionAttributeValues[":old"].(*ddbtypes.AttributeValueMemberB).Value
-		ok = r != nil && verifBytesEq(r.body, old)
-	case "attribute_not_exists(logID)":
-		ok = r == nil
-	default:
-		verifFail("an unconditional or unknown DynamoDB write: " + cond)
+	if cond == "" {
+		verifFail("an unconditional DynamoDB write")
+	}
+	// the service evaluates the condition expression against the stored item (DynamoDB's documented
+	// semantics for =, <>, attribute_exists, attribute_not_exists, AND, OR, NOT and parentheses)
+	item := map[string][]byte{}
+	if r != nil {
+		item["logID"], item["checkpoint"] = r.key, r.body
+	}
+	vals := map[string][]byte{}
+	for name, v := range in.ExpressionAttributeValues {
+		if b, isB := v.(*ddbtypes.AttributeValueMemberB); isB {
+			vals[name] = b.Value
+		} else {
+			verifUnsupported("non-binary expression attribute value " + name)
+		}
+	}
+	ev := &ddbCond{toks: ddbTokens(cond), item: item, vals: vals, names: in.ExpressionAttributeNames}
+	ok := ev.or()
+	if ev.pos != len(ev.toks) {
+		verifUnsupported("DynamoDB condition expression: " + cond)
 	}
 	if !ok {
 		return nil, &ddbtypes.ConditionalCheckFailedException{}
@@ -169,6 +181,133 @@ func verifStubDDBPutItem(c *dynamodb.Client, ctx context.Context, in *dynamodb.P
 		r.body = append([]byte{}, nb...)
 	}
 	return &dynamodb.PutItemOutput{}, nil
+}
+
+// ddbCond evaluates a DynamoDB condition expression over binary attributes.
+type ddbCond struct {
+	toks  []string
+	pos   int
+	item  map[string][]byte
+	vals  map[string][]byte
+	names map[string]string
+}
+
+func ddbTokens(s string) []string {
+	var out []string
+	for i := 0; i < len(s); {
+		c := s[i]
+		switch {
+		case c == ' ':
+			i++
+		case c == '(' || c == ')' || c == ',' || c == '=':
+			out = append(out, string(c))
+			i++
+		case c == '<' && i+1 < len(s) && s[i+1] == '>':
+			out = append(out, "<>")
+			i += 2
+		default:
+			j := i
+			for j < len(s) && s[j] != ' ' && s[j] != '(' && s[j] != ')' && s[j] != ',' && s[j] != '=' && s[j] != '<' {
+				j++
+			}
+			if j == i {
+				verifUnsupported("DynamoDB condition expression: " + s)
+				return out
+			}
+			out = append(out, s[i:j])
+			i = j
+		}
+	}
+	return out
+}
+
+func (e *ddbCond) peek() string {
+	if e.pos < len(e.toks) {
+		return e.toks[e.pos]
+	}
+	return ""
+}
+
+func (e *ddbCond) or() bool {
+	v := e.and()
+	for strings.EqualFold(e.peek(), "OR") {
+		e.pos++
+		r := e.and()
+		v = verifOr(v, r)
+	}
+	return v
+}
+
+func (e *ddbCond) and() bool {
+	v := e.not()
+	for strings.EqualFold(e.peek(), "AND") {
+		e.pos++
+		r := e.not()
+		v = verifAnd(v, r)
+	}
+	return v
+}
+
+func (e *ddbCond) not() bool {
+	if strings.EqualFold(e.peek(), "NOT") {
+		e.pos++
+		return !e.not()
+	}
+	return e.atom()
+}
+
+// operand resolves an attribute path or a value placeholder; present=false for a missing attribute.
+func (e *ddbCond) operand(t string) (val []byte, present bool) {
+	if strings.HasPrefix(t, ":") {
+		v, ok := e.vals[t]
+		if !ok {
+			verifUnsupported("undefined expression attribute value " + t)
+		}
+		return v, true
+	}
+	if strings.HasPrefix(t, "#") {
+		t = e.names[t]
+	}
+	v, ok := e.item[t]
+	return v, ok
+}
+
+func (e *ddbCond) atom() bool {
+	t := e.peek()
+	switch {
+	case t == "(":
+		e.pos++
+		v := e.or()
+		if e.peek() != ")" {
+			verifUnsupported("unbalanced DynamoDB condition expression")
+		}
+		e.pos++
+		return v
+	case t == "attribute_not_exists" || t == "attribute_exists":
+		if e.pos+3 >= len(e.toks) || e.toks[e.pos+1] != "(" || e.toks[e.pos+3] != ")" {
+			verifUnsupported("malformed " + t)
+			return false
+		}
+		_, present := e.operand(e.toks[e.pos+2])
+		e.pos += 4
+		return present == (t == "attribute_exists")
+	case e.pos+2 < len(e.toks) && (e.toks[e.pos+1] == "=" || e.toks[e.pos+1] == "<>"):
+		a, pa := e.operand(t)
+		b, pb := e.operand(e.toks[e.pos+2])
+		neq := e.toks[e.pos+1] == "<>"
+		e.pos += 3
+		if !pa || !pb {
+			return false // a comparison with a missing attribute is false
+		}
+		eq := len(a) == len(b) && verifBytesEq(a, b)
+		if neq {
+			return !eq
+		}
+		return eq
+	}
+	verifUnsupported("DynamoDB condition expression term " + t)
+	e.pos = len(e.toks) + 1
+	return false
 }
 
 // ---- S3 with ETags ----
